@@ -21,6 +21,8 @@ func genFamily(c *Config, r *rand.Rand) {
 		genControl(c, r)
 	case "reconf":
 		genReconf(c, r)
+	case "api", "persist":
+		genApi(c, r)
 	default:
 		genPipe(c, r)
 	}
